@@ -7,6 +7,7 @@ import (
 	"fmt"
 	"os"
 	"path/filepath"
+	"strconv"
 	"strings"
 	"time"
 
@@ -35,7 +36,47 @@ func embeddedPath(p string) (string, bool) {
 }
 
 // compareOuts walks the pre- and post-processing outputs in parallel.
-func compareOuts(pre, post *progen.Val, t *progen.T, p *progen.Program, where string, ps string, d progen.OutsParams, used map[string]string, out *[]string) {
+// pathComp is one component of the location a file leaf is expected at under
+// outs/: a name (parameter / member / key, plus extension for user file
+// types) or an array index (any zero padding is accepted).
+type pathComp struct {
+	name  string
+	index int
+	isIdx bool
+	ext   string
+}
+
+func (c pathComp) matches(s string) bool {
+	if !c.isIdx {
+		return s == c.name+c.ext
+	}
+	if !strings.HasSuffix(s, c.ext) {
+		return false
+	}
+	n, err := strconv.Atoi(strings.TrimSuffix(s, c.ext))
+	return err == nil && n == c.index
+}
+
+func (c pathComp) String() string {
+	if c.isIdx {
+		return fmt.Sprintf("<%d>%s", c.index, c.ext)
+	}
+	return c.name + c.ext
+}
+
+// leafExt is the extension the derived name of a value of type t carries.
+func leafExt(t *progen.T) string {
+	if t != nil && t.K == progen.TFiletype {
+		return "." + t.Name
+	}
+	return ""
+}
+
+func withComp(comps []pathComp, c pathComp) []pathComp {
+	return append(append([]pathComp{}, comps...), c)
+}
+
+func compareOuts(pre, post *progen.Val, t *progen.T, p *progen.Program, where string, ps string, d progen.OutsParams, used map[string]string, out *[]string, comps []pathComp) {
 	add := func(format string, a ...interface{}) {
 		*out = append(*out, where+": "+fmt.Sprintf(format, a...))
 	}
@@ -53,7 +94,8 @@ func compareOuts(pre, post *progen.Val, t *progen.T, p *progen.Program, where st
 			return
 		}
 		for i := range pre.A {
-			compareOuts(pre.A[i], post.A[i], t.Elem, p, fmt.Sprintf("%s[%d]", where, i), ps, d, used, out)
+			compareOuts(pre.A[i], post.A[i], t.Elem, p, fmt.Sprintf("%s[%d]", where, i), ps, d, used, out,
+				withComp(comps, pathComp{isIdx: true, index: i, ext: leafExt(t.Elem)}))
 		}
 		return
 	case t != nil && t.K == progen.TTMap && pre.K == progen.VObj:
@@ -67,7 +109,8 @@ func compareOuts(pre, post *progen.Val, t *progen.T, p *progen.Program, where st
 				add("key %q lost", k)
 				continue
 			}
-			compareOuts(pre.O[k], pv, t.Elem, p, where+"."+k, ps, d, used, out)
+			compareOuts(pre.O[k], pv, t.Elem, p, where+"."+k, ps, d, used, out,
+				withComp(comps, pathComp{name: k, ext: leafExt(t.Elem)}))
 		}
 		return
 	case t != nil && t.K == progen.TStruct && pre.K == progen.VObj:
@@ -76,7 +119,11 @@ func compareOuts(pre, post *progen.Val, t *progen.T, p *progen.Program, where st
 			return
 		}
 		for _, f := range p.Struct(t.Name).Fields {
-			compareOuts(pre.O[f.Name], post.O[f.Name], f.T, p, where+"."+f.Name, ps, d, used, out)
+			fc := pathComp{name: f.Name, ext: leafExt(f.T)}
+			if f.OutName != "" {
+				fc = pathComp{name: f.OutName}
+			}
+			compareOuts(pre.O[f.Name], post.O[f.Name], f.T, p, where+"."+f.Name, ps, d, used, out, withComp(comps, fc))
 		}
 		if len(post.O) != len(pre.O) {
 			add("struct with %d fields became one with %d", len(pre.O), len(post.O))
@@ -156,6 +203,26 @@ func compareOuts(pre, post *progen.Val, t *progen.T, p *progen.Program, where st
 		if t.K == progen.TFiletype && !d.OutName && !strings.HasSuffix(np, "."+t.Name) {
 			add("materialised name %s lacks the .%s extension of its file type", filepath.Base(np), t.Name)
 		}
+		// the location is the one derived from parameter names, types,
+		// explicit output names, indices and keys
+		_, aliased := used["orig:"+orig]
+		used["orig:"+orig] = where
+		if strings.HasPrefix(np, ps+"/outs/") && !aliased {
+			// (a second leaf naming the same source file may share the
+			// first one's location: which derived path is used is unspecified)
+			got := strings.Split(strings.TrimPrefix(np, ps+"/outs/"), "/")
+			ok := len(got) == len(comps)
+			var want []string
+			for i, c := range comps {
+				want = append(want, c.String())
+				if ok && !c.matches(got[i]) {
+					ok = false
+				}
+			}
+			if !ok {
+				add("materialised at outs/%s, the derived location is outs/%s", strings.Join(got, "/"), strings.Join(want, "/"))
+			}
+		}
 	}
 }
 
@@ -185,7 +252,7 @@ func outsOracle(d progen.OutsParams, p *progen.Program, res *Result) []string {
 	}
 	top := p.Pipeline("TOP")
 	used := map[string]string{}
-	walkTop := func(preV, postV *progen.Val, where string) {
+	walkTop := func(preV, postV *progen.Val, where string, prefix []pathComp) {
 		if preV.K != progen.VObj || postV.K != progen.VObj {
 			if !(preV.IsNullish() && postV.IsNullish()) {
 				out = append(out, where+": outputs record changed shape: "+ev.Short(postV.JSON(), 200))
@@ -193,7 +260,11 @@ func outsOracle(d progen.OutsParams, p *progen.Program, res *Result) []string {
 			return
 		}
 		for _, o := range top.Outs {
-			compareOuts(preV.O[o.Name], postV.O[o.Name], o.T, p, where+o.Name, res.PsPath, d, used, &out)
+			oc := pathComp{name: o.Name, ext: leafExt(o.T)}
+			if o.OutName != "" {
+				oc = pathComp{name: o.OutName}
+			}
+			compareOuts(preV.O[o.Name], postV.O[o.Name], o.T, p, where+o.Name, res.PsPath, d, used, &out, withComp(prefix, oc))
 		}
 		for k := range postV.O {
 			if _, ok := preV.O[k]; !ok {
@@ -206,10 +277,10 @@ func outsOracle(d progen.OutsParams, p *progen.Program, res *Result) []string {
 			return append(out, "mapped top-level outputs changed shape: "+ev.Short(res.TopOutsText, 300))
 		}
 		for i := range pre.A {
-			walkTop(pre.A[i], res.TopOuts.A[i], fmt.Sprintf("[%d].", i))
+			walkTop(pre.A[i], res.TopOuts.A[i], fmt.Sprintf("[%d].", i), []pathComp{{isIdx: true, index: i}})
 		}
 	} else {
-		walkTop(pre, res.TopOuts, "")
+		walkTop(pre, res.TopOuts, "", nil)
 	}
 	return out
 }
